@@ -443,7 +443,11 @@ def readiness_rule(A: Analysis, col: Collector, rule: str, failure_part: bool, r
 def error_aggregation_rule(A: Analysis, col: Collector, rule: str):
     fn = A.func(f"{SUBMITTER}.expand_workflow_async")
     col.scope(fn.qualname)
-    res_calls = [c for c in A.calls(fn) if isinstance(c.func, ast.Attribute) and c.func.attr == "result" and not c.args and "future" in norm(c.func.value)]
+    # `<x>.result()` on the loop variable that iterates the futures fetch_finished reported as done (no
+    # dependence on the variable's name)
+    fetched_ = {e.id for a_ in walk_own(fn.node) if isinstance(a_, ast.Assign) and any(isinstance(c, ast.Call) and isinstance(c.func, ast.Attribute) and c.func.attr == "fetch_finished" for c in ast.walk(a_.value)) for t in a_.targets for e in (t.elts if isinstance(t, ast.Tuple) else [t]) if isinstance(e, ast.Name)}
+    done_vars_ = {l.target.id for l in walk_own(fn.node) if isinstance(l, ast.For) and isinstance(l.target, ast.Name) and isinstance(l.iter, ast.Name) and l.iter.id in fetched_}
+    res_calls = [c for c in A.calls(fn) if isinstance(c.func, ast.Attribute) and c.func.attr == "result" and not c.args and ((isinstance(c.func.value, ast.Name) and c.func.value.id in done_vars_) or "future" in norm(c.func.value))]
     A.anchor("task_future.result() in expand_workflow_async", res_calls)
     err_vars = set()
     for c in res_calls:
